@@ -604,9 +604,9 @@ Proof.
   eexists. split; [reflexivity|]. unfold _send_initially, _store_response_for_duplicates. cbn. destruct (amem _ _ _); cbn; auto.
 Qed.
 Lemma as_response_address_idempotent r : as_response_address (as_response_address r) = as_response_address r.
-Proof. unfold as_response_address, is_multicast_locally. destruct (rlocal r =? 2) eqn:E; cbn; [reflexivity|rewrite E; reflexivity]. Qed.
+Proof. unfold as_response_address, is_multicast_locally. destruct ((rlocal r =? 2) || (100 <=? rlocal r)) eqn:E; cbn; [reflexivity|rewrite E; reflexivity]. Qed.
 Lemma as_response_address_not_multicast_locally r : is_multicast_locally (as_response_address r) = false.
-Proof. unfold as_response_address, is_multicast_locally. destruct (rlocal r =? 2) eqn:E; cbn; [reflexivity|exact E]. Qed.
+Proof. unfold as_response_address, is_multicast_locally. destruct ((rlocal r =? 2) || (100 <=? rlocal r)) eqn:E; cbn; [reflexivity|exact E]. Qed.
 
 (* every response of the rendering path — also 4.04 / 4.05 / 5.00 built from exceptions, which carry no option of their own — is sent
    with the request's No-Response option in force *)
